@@ -26,6 +26,7 @@ import (
 	"github.com/ipfs/go-datastore"
 	dssync "github.com/ipfs/go-datastore/sync"
 	"github.com/libp2p/go-libp2p/core/peer"
+	mocknet "github.com/libp2p/go-libp2p/p2p/net/mock"
 	"go.opentelemetry.io/otel"
 	"go.opentelemetry.io/otel/metric"
 	"go.opentelemetry.io/otel/metric/noop"
@@ -605,10 +606,97 @@ func main() {
 	if chk.Violations() == 0 {
 		cadence(chk, sets, thorough)
 	}
+	// ---- part 4: the started service (production Start, real peer discovery, a real certificate-exchange server)
+	if chk.Violations() == 0 {
+		lifecycle(chk, sets[0])
+	}
 	chk.Set("exhaustive", chk.Violations() == 0 && timeouts.Load() == 0)
-	chk.Set("rule", "part 1: every sequence of <=3 ticks over {0,1,2,5 certificates} x {arriving locally, at the peers} (also: arriving at the peers with the first of them reaching the node's own store while its request is in flight) with 1 and 2 peers (one lagging): CatchUp and a polling round must report exactly the store advance and leave the poller at the store's next instance. part 2: the production run loop under a mock clock, every sequence of 3 (thorough 4) ticks over the same menu x request time {0, 1/4, 1} initial interval plus a failing peer, three (min, initial, max) settings: the wait recorded right after the timer is re-armed must be the predicted interval (reference predictor fed with the true store advance), extended by no more than the time the requests took and half the interval. part 3: long steady / bursty / stalled-resumed production patterns with one peer, and steady production with one up-to-date peer among 40 that trail or never have anything (more peers than a round asks), known from the start or discovered after the first tick: the interval must settle near the production period")
+	chk.Set("rule", "part 1: every sequence of <=3 ticks over {0,1,2,5 certificates} x {arriving locally, at the peers} (also: arriving at the peers with the first of them reaching the node's own store while its request is in flight) with 1 and 2 peers (one lagging): CatchUp and a polling round must report exactly the store advance and leave the poller at the store's next instance. part 2: the production run loop under a mock clock, every sequence of 3 (thorough 4) ticks over the same menu x request time {0, 1/4, 1} initial interval plus a failing peer, three (min, initial, max) settings: the wait recorded right after the timer is re-armed must be the predicted interval (reference predictor fed with the true store advance), extended by no more than the time the requests took and half the interval. part 3: long steady / bursty / stalled-resumed production patterns with one peer, and steady production with one up-to-date peer among 40 that trail or never have anything (more peers than a round asks), known from the start or discovered after the first tick: the interval must settle near the production period. part 4: the production Start (real peer discovery, spawned run loop) against a real certificate-exchange server, start context cancelled or kept: every certificate appearing at the server must reach the store")
 	chk.Assume("mocknet; mock clock; the wait is observed through the gauge the loop records right after timer.Reset; reference predictor = documented rules of predictor.go")
 	chk.Finish()
+}
+
+// lifecycle: Subscriber.Start end to end — its own context handling, peer discovery over libp2p events, the run
+// loop it spawns — against a real certexchange.Server, with the context given to Start cancelled right after Start
+// returned or kept (a start-up deadline must not stop a started service). One certificate at a time appears at the
+// server; the mock clock is moved one maximum interval at a time; the certificate must reach the subscriber's
+// store. Nothing bounds the real time that takes (discovery is asynchronous), so a miss is only reported after
+// two minutes of trying.
+func lifecycle(chk *vcommon.Check, set settings) {
+	n := 0
+	for _, cancelStart := range []bool{false, true} {
+		mn := mocknet.New()
+		clientHost, err := mn.GenPeer()
+		if err != nil {
+			panic(err)
+		}
+		serverHost, err := mn.GenPeer()
+		if err != nil {
+			panic(err)
+		}
+		if err := mn.LinkAll(); err != nil {
+			panic(err)
+		}
+		ctx, clk := clock.WithMockClock(context.Background())
+		serverStore, err := certstore.CreateStore(ctx, dssync.MutexWrap(datastore.NewMapDatastore()), 0, table0)
+		if err != nil {
+			panic(err)
+		}
+		server := &certexchange.Server{NetworkName: nn, Host: serverHost, Store: serverStore}
+		if err := server.Start(ctx); err != nil {
+			panic(err)
+		}
+		clientStore, err := certstore.CreateStore(ctx, dssync.MutexWrap(datastore.NewMapDatastore()), 0, table0)
+		if err != nil {
+			panic(err)
+		}
+		sub := &polling.Subscriber{
+			Client:              certexchange.Client{Host: clientHost, NetworkName: nn},
+			Store:               clientStore,
+			SignatureVerifier:   keys,
+			InitialPollInterval: set.Initial,
+			MaximumPollInterval: set.Max,
+			MinimumPollInterval: set.Min,
+		}
+		startCtx, cancel := context.WithCancel(ctx)
+		if err := sub.Start(startCtx); err != nil {
+			panic(err)
+		}
+		if cancelStart {
+			cancel()
+		}
+		if err := mn.ConnectAllButSelf(); err != nil {
+			panic(err)
+		}
+		for k := 0; k < 4 && chk.Violations() == 0; k++ {
+			n++
+			if err := serverStore.Put(ctx, chain[k]); err != nil {
+				panic(err)
+			}
+			got := false
+			for t0 := time.Now(); time.Since(t0) < 2*time.Minute && !got; {
+				clk.Add(set.Max)
+				for w := 0; w < 20 && !got; w++ {
+					if l := clientStore.Latest(); l != nil && l.GPBFTInstance >= uint64(k) {
+						got = true
+					} else {
+						time.Sleep(5 * time.Millisecond)
+					}
+				}
+			}
+			if !got {
+				chk.Violation("started-subscriber-never-fetches", fmt.Sprintf("started subscriber (start context cancelled after Start: %v): certificate %d, available at a connected up-to-date peer, never reached the store although the clock was moved by the maximum interval for two minutes of real time", cancelStart, k), map[string]any{"kind": "lifecycle", "start_context_cancelled": cancelStart, "certificate": k})
+			}
+		}
+		cancel()
+		_ = sub.Stop(context.Background())
+		_ = server.Stop(context.Background())
+		_ = mn.Close()
+		if chk.Violations() > 0 {
+			break
+		}
+	}
+	chk.Set("lifecycle_certificates", n)
 }
 
 // cadence: production driven by mock time.
